@@ -17,9 +17,12 @@ RULE = ("Hypothesis histories (<= 10 operations) of addfilter/updatefilter/repla
         "requires; every filter's content renders to a script that parses to the same tree; str of a second reload equals "
         "str(fs2). Plus an exhaustive grid: every set of 1-4 filters, each plain / described / disabled / both, under every marker-prefix pair. Non-trivial = >= 2 filters or a disabled filter or a description; distinct by history.")
 
-NAME_ALPHA = ["a", "B", "1", " ", "é", "€", "#", ":", '"', "\\", "{", "}", ";", "/*", "😀", "-", ".", "(", "[", ","]
+NAME_ALPHA = ["a", "B", "1", " ", "é", "€", "#", ":", '"', "\\", "{", "}", ";", "/*", "😀", "-", ".", "(", "[", ",",
+              "\\n", "\\r", "\\t", "n", "\\\\", "%", "\t"]
 PREFIXES = [None, ("# rule:", "# about:"), ("#N=", "#D="), ("# Filter: ", "# Description: "), ("#>", "#<"),
-            ("# [rule] ", "# (desc) "), ("#** ", "#++ "), ("# Rule? ", "# Desc. "), ("#\\n ", "#\\d ")]
+            ("# [rule] ", "# (desc) "), ("#** ", "#++ "), ("# Rule? ", "# Desc. "), ("#\\n ", "#\\d "),
+            # pairs in which neither marker is a prefix of the other, but one is once its trailing blank is ignored
+            ("## ", "### "), ("### ", "## "), ("# Rule ", "# Rule's purpose: "), ("#N ", "#N: "), ("#D: ", "#D ")]
 
 
 def text_ok(s, prefixes):
